@@ -5,12 +5,28 @@ from vlib import Failure, finish, hexs
 COQ_FILES = L.LOOP_COQ_FILES + ["CommandProofs.v", "CallerProofs.v"]
 
 
+PIC = bytes((i * 11 + 3) % 256 for i in range(300))
+PIC_LIMIT = 64
+ART_CONF = L.conf(file=PIC, limit=PIC_LIMIT)
+
+
+def data_sum(d):
+    a = len(d)
+    for x in d:
+        a = (a * 31 + x) % 4294967296
+    return a
+
+
 def any_specs(rng, n, rid):
     specs, want, lines = [], [], []
     for k in range(n):
         r = rng.random()
         val = str(rid * 100 + k)
-        if r < 0.45:
+        if r < 0.15:
+            # a command whose reply carries a binary part (one chunk of the cover file): the chunk must reach the value at its position
+            uri = f"song{rid}x{k}.flac"
+            specs.append("a" + hexs(uri)); want.append(str(data_sum(PIC[:PIC_LIMIT]))); lines.append(b"albumart " + uri.encode() + b" 0")
+        elif r < 0.45:
             specs.append("u" + hexs(val)); want.append(val); lines.append(b"update " + val.encode())
         elif r < 0.9:
             specs.append("r" + hexs(val)); want.append(val); lines.append(b"rescan " + val.encode())
@@ -40,7 +56,7 @@ def gen(ctx):
                     labels.append("N:" + hexs(rng.choice(L.SUBSYSTEMS)))
                 if rng.random() < 0.5:
                     labels += ["S*", rng.choice(["D0", "D5", "D11"])]
-            items.append((L.Sched(labels=labels + L.flush(rid), note=f"typed {kind} lists"), {"expect": exp, "frames": frames}))
+            items.append((L.Sched(conf=ART_CONF, labels=labels + L.flush(rid), note=f"typed {kind} lists"), {"expect": exp, "frames": frames}))
     # a second caller's raw list interleaved with typed lists
     for _ in range(20 if ctx.tier == "quick" else 400):
         labels = ["D0"] if rng.random() < 0.6 else ["k" + str(rng.choice([1, 5, 16, 24])), "D0"]
@@ -62,14 +78,14 @@ def gen(ctx):
                 labels += rng.choice([[], ["S*"]]) + [f"x{rid}"]
                 del exp[rid]
                 cancelled.add(rid)
-        items.append((L.Sched(labels=labels + L.flush(rid), note="mixed typed lists"), {"expect": exp, "frames": frames}))
+        items.append((L.Sched(conf=ART_CONF, labels=labels + L.flush(rid), note="mixed typed lists"), {"expect": exp, "frames": frames}))
     # the empty list writes nothing and resolves to the empty result whatever the state of the connection (a server that hung up,
     # malformed data, failing reads, an exited loop)
     for fault in (["e"], ["S*", "e"], ["G:" + hexs(b"what\n")], ["r"], ["w", "t100"], ["N:" + hexs("player"), "D7", "e"]):
         for kind in ("v",):
             specs, want, lines = any_specs(rng, 2, 1)
             labels = ["D0", f"{kind}1:" + ",".join(specs), "S*", "D0", "S*", "D0"] + fault + ["t200", f"{kind}2:", "t200", f"{kind}3:", "t200"]
-            items.append((L.Sched(labels=labels, note="empty typed list after the connection ended: " + " ".join(fault)[:20]),
+            items.append((L.Sched(conf=ART_CONF, labels=labels, note="empty typed list after the connection ended: " + " ".join(fault)[:20]),
                           {"expect": {1: "ok[" + ",".join(want) + "]", 2: "ok[]", 3: "ok[]"}, "frames": [lines, [], []]}))
     return items
 
